@@ -34,13 +34,17 @@ def make_ops(r, meta, files):
     E = list(meta["enable"])
     ops = [{"op": "probe", "enable": list(E)}]
     style = r.choice(["loop_only", "steps_then_loop", "steps_then_loop", "autofix_first", "autofix_drain", "autofix_drain", "restart_every", "stale", "crashy"])
+    if meta.get("forced_atom_has_fix") and r.chance(0.7):
+        # the tree carries its round-robin atom for the sake of that atom's FIX: make sure fixes get
+        # applied one after the other
+        style = "autofix_drain"
     p_restart = {"restart_every": 1.0, "stale": 0.0}.get(style, r.choice([0.0, 0.3, 0.6]))
     p_alt = r.choice([0.0, 0.3, 0.7])
     p_crash = 0.5 if style == "crashy" and len(files) > 1 else 0.0
     n_steps = 0 if style == "loop_only" else r.randint(1, 6)
     if style == "autofix_drain":
         # apply proposed fixes one after the other until (nearly) all of them have been through
-        n_steps = r.randint(8, 14)
+        n_steps = r.randint(6, 10)
     faultless = p_crash == 0.0
     for s in range(n_steps):
         if style == "autofix_drain":
@@ -100,6 +104,7 @@ class Runner:
 
     def spec_of(self, run, tag):
         return {"files": run["files"], "ops": run["ops"], "layout_seed": run["layout"], "extra_args": (run.get("meta") or {}).get("extra_args", []),
+                "links": (run.get("meta") or {}).get("links") or {},
                 "root": os.path.join(self.pyc.dir, "trees", "t%s" % tag, "tree"), "world_timeout": 600}
 
     def execute(self, run, tag):
@@ -108,7 +113,9 @@ class Runner:
         return events, end
 
     def judge(self, run, events):
-        return oracles.judge({"files": run["files"]}, events)
+        files = dict(run["files"])
+        files.update((run.get("meta") or {}).get("links") or {})
+        return oracles.judge({"files": files}, events)
 
     def run_many(self, runs, tagp="r"):
         out = {}
@@ -223,6 +230,8 @@ class Runner:
             run = runs[k]
             if n >= self.tier.n_cli:
                 break
+            if (run.get("meta") or {}).get("links"):
+                continue
             loop_only = dict(run, ops=[{"op": "loop", "mode": "add_ignores", "enable": run["meta"]["enable"], "extra_args": run["meta"].get("extra_args", [])}], hash=0, layout=0)
             try:
                 events, end = self.execute(loop_only, "cli%d" % k)
@@ -360,7 +369,8 @@ class Runner:
         return run
 
     def write_replay(self, run, v, sig):
-        spec = {"files": run["files"], "ops": run["ops"], "layout_seed": run["layout"], "extra_args": (run.get("meta") or {}).get("extra_args", [])}
+        spec = {"files": run["files"], "ops": run["ops"], "layout_seed": run["layout"], "extra_args": (run.get("meta") or {}).get("extra_args", []),
+                "links": (run.get("meta") or {}).get("links") or {}}
         rep = {"property": PROP, "seed": self.seed, "signature": sig, "oracle": v["oracle"], "detail": v["detail"], "hash": run["hash"],
                "spec": spec, "generator_meta": run.get("meta"), "before": v.get("before"), "after": v.get("after")}
         os.makedirs(os.path.join(VERIF, "replays"), exist_ok=True)
@@ -451,7 +461,9 @@ def replay(path):
         launch.run_world("c16", spec, 0, pyc.dir, write_bytecode=True)
         events, end = launch.run_world("c16", spec, rep["hash"], pyc.dir)
         print("world digest=%s" % end["digest"])
-        viols, _ = oracles.judge({"files": rep["spec"]["files"]}, events)
+        files = dict(rep["spec"]["files"])
+        files.update(rep["spec"].get("links") or {})
+        viols, _ = oracles.judge({"files": files}, events)
         hit = [v for v in viols if v["signature"] == rep["signature"]]
         if hit:
             print("reproduced: %s\n%s" % (hit[0]["signature"], hit[0]["detail"]))
